@@ -5,7 +5,7 @@ import re
 
 from ..core.engine import Res
 from ..core.rules import exhaustive_loop
-from ..core.rules import (who_calls, who_writes, must_pass, order, wire, guard, guard_inventory, err_inventory, inventory_check,
+from ..core.rules import (who_calls, who_writes, must_pass, order, wire, guard,
                           call_matches)
 from ..core.origins import Origins
 from ..core.panics import TABLES
@@ -150,20 +150,3 @@ def run(ctx):
     ]
     for name, fq, rel, a, b, err in G:
         ctx.check('GUARD', name, lambda P_, fq=fq, rel=rel, a=a, b=b, err=err: guard(P_, fq, rel, a, b, err), floor=1)
-    gi, ei = _load('guard_inventory.json').get(cfg), _load('err_inventory.json').get(cfg)
-
-    def inv_g(P_):
-        if gi is None:
-            return Res().bad('baseline-missing', 'no guard inventory for configuration ' + cfg)
-        base = {k: v for k, v in gi.items() if re.search(TREE_FNS, k)}
-        return inventory_check(guard_inventory(P_, TREE_FNS), base, 'guard', lambda fnq, k, n, have, cur:
-                               'tree function `%s` had %d guard(s) [fails-when %s] on the reviewed tree, now %d (now: %s)' % (fnq, n, k, have, cur))
-    ctx.check('GUARD-INVENTORY', 'tree validation and editing', inv_g, floor=10)
-
-    def inv_e(P_):
-        if ei is None:
-            return Res().bad('baseline-missing', 'no error inventory for configuration ' + cfg)
-        base = {k: v for k, v in ei.items() if re.search(TREE_FNS, k)}
-        return inventory_check(err_inventory(P_, TREE_FNS), base, 'error', lambda fnq, k, n, have, cur:
-                               'tree function `%s` no longer raises %s (now raises %s)' % (fnq, k, cur))
-    ctx.check('ERR-INVENTORY', 'tree validation and editing', inv_e, floor=20)
